@@ -60,8 +60,33 @@ def cargo_env():
     return {"CARGO_NET_OFFLINE": "true", "RUSTFLAGS": os.environ.get("RUSTFLAGS", "")}
 
 
+def scratch_crate(crate):
+    """The crates depend on the path /repo.  When VERIF_REPO names another checkout (development only: a scratch
+    worktree carrying a seeded change, so that /repo itself is not touched), build a copy of the crate whose
+    dependency path is rewritten."""
+    if os.path.abspath(REPO) == "/repo":
+        return crate
+    tag = hashlib.md5(os.path.abspath(REPO).encode()).hexdigest()[:8]
+    dst = os.path.join(WORK, "scratch_%s" % tag, os.path.basename(crate))
+    os.makedirs(dst, exist_ok=True)
+    for item in ("src", "Cargo.toml", "Cargo.lock", ".cargo"):
+        src = os.path.join(crate, item)
+        d = os.path.join(dst, item)
+        if os.path.isdir(src):
+            shutil.rmtree(d, ignore_errors=True)
+            shutil.copytree(src, d)
+        elif os.path.exists(src):
+            shutil.copy(src, d)
+    t = open(os.path.join(dst, "Cargo.toml")).read().replace('path = "/repo"', 'path = "%s"' % os.path.abspath(REPO))
+    if os.path.basename(crate) == "autotraits":
+        t = t.replace('path = "../harness"', 'path = "%s"' % scratch_crate(HARNESS))
+    open(os.path.join(dst, "Cargo.toml"), "w").write(t)
+    return dst
+
+
 def build_harness(profile="release", crate=HARNESS):
     """(Re)build the conformance binaries against /repo's current working tree."""
+    crate = scratch_crate(crate)
     key = (profile, crate)
     if key in _built:
         return _built[key]
